@@ -43,8 +43,14 @@ func Path(v ssa.Value) string {
 	case *ssa.Field:
 		return Path(x.X) + "." + FieldName(x.X.Type(), x.Field)
 	case *ssa.IndexAddr:
+		if k, ok := x.Index.(*ssa.Const); ok && k.Value != nil {
+			return Path(x.X) + "[" + k.Value.ExactString() + "]"
+		}
 		return Path(x.X) + "[]"
 	case *ssa.Index:
+		if k, ok := x.Index.(*ssa.Const); ok && k.Value != nil {
+			return Path(x.X) + "[" + k.Value.ExactString() + "]"
+		}
 		return Path(x.X) + "[]"
 	case *ssa.Lookup:
 		return Path(x.X) + "[]"
@@ -75,6 +81,13 @@ func Path(v ssa.Value) string {
 		}
 		if x.Call.IsInvoke() {
 			return Path(x.Call.Value) + "." + x.Call.Method.Name() + "()"
+		}
+		if b, ok := x.Call.Value.(*ssa.Builtin); ok {
+			var as []string
+			for _, a := range x.Call.Args {
+				as = append(as, Path(a))
+			}
+			return b.Name() + "(" + strings.Join(as, ",") + ")"
 		}
 		return "call(" + Path(x.Call.Value) + ")"
 	case *ssa.Global:
